@@ -1,4 +1,5 @@
 import Bpmn.Model.Engine
+import Bpmn.Spec.TokenGame
 /-!
 Helper lemmas about the engine model (`Bpmn.Model.Engine`) used by `Props/C01Conformance`:
 
@@ -7,7 +8,7 @@ Helper lemmas about the engine model (`Bpmn.Model.Engine`) used by `Props/C01Con
 * two generic lemmas to push "the log is empty at the end" backwards through a `List.foldl`.
 -/
 namespace Bpmn.Lemmas.Engine
-open Bpmn.Model Bpmn.Model.Engine
+open Bpmn.Model Bpmn.Model.Engine Bpmn.Spec.TokenGame
 
 /-! ## folds -/
 
@@ -278,5 +279,424 @@ theorem arrive_conf (cfg : Cfg) (he : cfg.eagerSettle = false) (p : Proc) (s : S
         intro h
         rw [enterSub_conf _ _ _ _ _ h]
     | _ => simp
+
+/-! ## the abstracted functions of `Spec/TokenGame` are the engine's -/
+
+theorem settleIncl_tie (cfg : Cfg) (p : Proc) (s : St) (work : List Tok) :
+    settleInclW (igReady cfg) p s work = settleIncl cfg p s work := rfl
+
+theorem settle_tie (cfg : Cfg) (p : Proc) (s : St) :
+    settleW (igReady cfg) cfg p s = settle cfg p s := by
+  unfold settleW settle settleSubs
+  rw [settleIncl_tie]
+  generalize settleIncl cfg p s [] = r
+  obtain ⟨x, s'⟩ := r
+  cases x <;> rfl
+
+theorem runWork_tie (cfg : Cfg) (p : Proc) : ∀ (fuel : Nat) (toks : List Tok) (s : St),
+    runWorkW (igReady cfg) cfg p fuel toks s = runWork cfg p fuel toks s := by
+  intro fuel
+  induction fuel with
+  | zero => intro toks s; rfl
+  | succ k ih =>
+    intro toks s
+    cases toks with
+    | nil =>
+      simp only [runWorkW, runWork, settle_tie, ih]
+    | cons t rest =>
+      simp only [runWorkW, runWork, settleIncl_tie, ih]
+      rfl
+
+theorem start_tie (cfg : Cfg) (p : Proc) (vars : Vars) : startW (igReady cfg) cfg p vars = Engine.start cfg p vars := by
+  simp only [startW, Engine.start, runWork_tie]
+
+theorem answer_tie (cfg : Cfg) (p : Proc) (s : St) (node : String) (occ : Nat) (a : Answer) :
+    answerW (igReady cfg) cfg p s node occ a = Engine.answer cfg p s node occ a := by
+  unfold answerW answerPrep Engine.answer
+  simp only [runWork_tie]
+  cases hf : List.find? (fun q => q.1.node == node && q.2 == occ) ({ s with obs := [] } : St).pending with
+  | none => rfl
+  | some q =>
+    obtain ⟨t, k⟩ := q
+    cases hn : p.node? node with
+    | none => rfl
+    | some n =>
+      simp only
+      cases a with
+      | ok results => rfl
+      | err mode retries =>
+        match mode with
+        | 0 => rfl
+        | 1 =>
+          simp only
+          generalize (retries == -1 || _) = c
+          cases c <;> rfl
+        | 2 => rfl
+        | 3 => rfl
+        | m + 4 => rfl
+
+/-! ## conformance of the abstracted functions, for decision procedures that agree while nothing is logged -/
+
+/-- the decision procedure never shrinks the log -/
+def Back (r : Ready) : Prop := ∀ p s n g work, (r p s n g work).2.causes = [] → s.causes = []
+/-- `r1` decides like `r2` (and leaves the same state) whenever it logs nothing -/
+def Conf (r1 r2 : Ready) : Prop :=
+  ∀ p s n g work, (r1 p s n g work).2.causes = [] → r1 p s n g work = r2 p s n g work
+
+theorem settleInclW_back (r : Ready) (hb : Back r) (p : Proc) (s : St) (work : List Tok) :
+    (settleInclW r p s work).2.causes = [] → s.causes = [] := by
+  unfold settleInclW
+  intro h
+  exact foldl_back (fun x : Option (List Tok) × St => x.2.causes = []) _ (by
+    intro b n
+    obtain ⟨x, s⟩ := b
+    cases x with
+    | some x => exact id
+    | none =>
+      simp only
+      split
+      · simp only [igRelease_causes]; exact hb _ _ _ _ _
+      · exact hb _ _ _ _ _) _ _ h
+
+theorem settleInclW_conf (r1 r2 : Ready) (hb : Back r1) (hc : Conf r1 r2) (p : Proc) (s : St) (work : List Tok) :
+    (settleInclW r1 p s work).2.causes = [] → settleInclW r1 p s work = settleInclW r2 p s work := by
+  unfold settleInclW
+  intro h
+  exact foldl_congr_back (fun x : Option (List Tok) × St => x.2.causes = []) _ _ (by
+    intro b n
+    obtain ⟨x, s⟩ := b
+    cases x with
+    | some x => exact id
+    | none =>
+      simp only
+      split
+      · simp only [igRelease_causes]; exact hb _ _ _ _ _
+      · exact hb _ _ _ _ _) (by
+    intro b n
+    obtain ⟨x, s⟩ := b
+    cases x with
+    | some x => intro _; rfl
+    | none =>
+      simp only
+      intro h
+      have hr : (r1 p s n (igGet s n.id) work).2.causes = [] := by
+        revert h
+        split
+        · simp only [igRelease_causes]; exact id
+        · exact id
+      rw [hc _ _ _ _ _ hr]) _ _ h
+
+theorem ite_pair_snd {α β : Type _} (c : Prop) [Decidable c] (a b : α) (s : β) :
+    (if c then (a, s) else (b, s)).2 = s := by split <;> rfl
+
+theorem settleSubs_back (cfg : Cfg) (p : Proc) (s : St) :
+    (settleSubs cfg p s).2.causes = [] → s.causes = [] := by
+  unfold settleSubs
+  simp only
+  split
+  · exact id
+  · cases hs : cfg.subNeverReturns
+    · simp only [Bool.false_eq_true, if_false]
+      split
+      · exact id
+      · simp only [ite_pair_snd]
+        intro h
+        have := selectFlows_back _ _ _ _ _ _ h
+        exact this
+    · simp only [if_true]
+      split
+      · simp only [ite_pair_snd]
+        intro h
+        have := selectFlows_back _ _ _ _ _ _ h
+        exact absurd this (cause_ne_nil _ _)
+      · intro h; exact cause_back s _ h
+
+theorem settleSubs_conf (cfg : Cfg) (p : Proc) (s : St) :
+    (settleSubs cfg p s).2.causes = [] → settleSubs cfg p s = settleSubs Cfg.ideal p s := by
+  unfold settleSubs
+  simp only
+  split
+  · intro _; rfl
+  · cases hs : cfg.subNeverReturns
+    · simp only [Bool.false_eq_true, if_false, Cfg.ideal]
+      split
+      · intro _; rfl
+      · simp only [ite_pair_snd]
+        intro h
+        rw [selectFlows_conf _ _ _ _ _ _ h]
+        rfl
+    · simp only [if_true]
+      split
+      · simp only [ite_pair_snd]
+        intro h
+        have := selectFlows_back _ _ _ _ _ _ h
+        exact absurd this (cause_ne_nil _ _)
+      · intro h; exact absurd h (cause_ne_nil s _)
+
+theorem settleW_back (r : Ready) (hb : Back r) (cfg : Cfg) (p : Proc) (s : St) :
+    (settleW r cfg p s).2.causes = [] → s.causes = [] := by
+  unfold settleW
+  cases hsi : settleInclW r p s [] with
+  | mk x s' =>
+    have h0 := settleInclW_back r hb p s []
+    rw [hsi] at h0
+    cases x with
+    | some x => exact h0
+    | none => exact fun h => h0 (settleSubs_back cfg p s' h)
+
+theorem settleW_conf (r1 r2 : Ready) (hb : Back r1) (hc : Conf r1 r2) (cfg : Cfg) (p : Proc) (s : St) :
+    (settleW r1 cfg p s).2.causes = [] → settleW r1 cfg p s = settleW r2 Cfg.ideal p s := by
+  unfold settleW
+  have h0 := settleInclW_conf r1 r2 hb hc p s []
+  cases hsi : settleInclW r1 p s [] with
+  | mk x s' =>
+    rw [hsi] at h0
+    cases x with
+    | some x => intro h; rw [← h0 h]
+    | none =>
+      simp only
+      intro h
+      have h1 := settleSubs_back cfg p s' h
+      rw [← h0 h1]
+      exact settleSubs_conf cfg p s' h
+
+theorem runWorkW_back (r : Ready) (hb : Back r) (cfg : Cfg) (he : cfg.eagerSettle = false) (p : Proc) :
+    ∀ (fuel : Nat) (toks : List Tok) (s : St), (runWorkW r cfg p fuel toks s).causes = [] → s.causes = [] := by
+  intro fuel
+  induction fuel with
+  | zero => intro toks s; simp [runWorkW]
+  | succ k ih =>
+    intro toks s
+    cases toks with
+    | nil =>
+      simp only [runWorkW]
+      split
+      · exact settleW_back r hb cfg p s
+      · intro h; exact settleW_back r hb cfg p s (ih _ _ h)
+    | cons t rest =>
+      simp only [runWorkW, he, Bool.false_eq_true, if_false]
+      intro h
+      exact arrive_back cfg p s t (ih _ _ h)
+
+theorem runWorkW_conf (r1 r2 : Ready) (hb : Back r1) (hc : Conf r1 r2) (cfg : Cfg) (he : cfg.eagerSettle = false)
+    (p : Proc) : ∀ (fuel : Nat) (toks : List Tok) (s : St),
+      (runWorkW r1 cfg p fuel toks s).causes = [] →
+      runWorkW r1 cfg p fuel toks s = runWorkW r2 Cfg.ideal p fuel toks s := by
+  intro fuel
+  induction fuel with
+  | zero => intro toks s _; rfl
+  | succ k ih =>
+    intro toks s
+    cases toks with
+    | nil =>
+      simp only [runWorkW]
+      intro h
+      have hs : (settleW r1 cfg p s).2.causes = [] := by
+        revert h
+        split
+        · exact id
+        · exact runWorkW_back r1 hb cfg he p _ _ _
+      have he' := settleW_conf r1 r2 hb hc cfg p s hs
+      rw [← he']
+      split
+      · rfl
+      · rename_i hcond
+        simp only [hcond] at h
+        exact ih _ _ h
+    | cons t rest =>
+      simp only [runWorkW, he, Bool.false_eq_true, if_false, Cfg.ideal]
+      intro h
+      have ha := arrive_conf cfg he p s t (runWorkW_back r1 hb cfg he p _ _ _ h)
+      rw [ih _ _ h, ha]
+      rfl
+
+theorem startW_conf (r1 r2 : Ready) (hb : Back r1) (hc : Conf r1 r2) (cfg : Cfg) (he : cfg.eagerSettle = false)
+    (p : Proc) (vars : Vars) :
+    (startW r1 cfg p vars).causes = [] → startW r1 cfg p vars = startW r2 Cfg.ideal p vars := by
+  unfold startW
+  exact runWorkW_conf r1 r2 hb hc cfg he p _ _ _
+
+theorem answerPrep_back (cfg : Cfg) (p : Proc) (s : St) (node : String) (occ : Nat) (a : Answer)
+    (toks : List Tok) (s' : St) (h : answerPrep cfg p s node occ a = some (toks, s')) :
+    s'.causes = [] → s.causes = [] := by
+  unfold answerPrep at h
+  revert h
+  simp only
+  split
+  · rename_i t k n _ _
+    cases a with
+    | ok results =>
+      simp only [Option.some.injEq, Prod.mk.injEq]
+      rintro ⟨_, rfl⟩ h
+      have := selectFlows_back _ _ _ _ _ _ h
+      exact this
+    | err mode retries =>
+      simp only
+      split
+      · split
+        · simp only [Option.some.injEq, Prod.mk.injEq]; rintro ⟨_, rfl⟩ h; exact h
+        · simp only [Option.some.injEq, Prod.mk.injEq]; rintro ⟨_, rfl⟩ h; exact h
+      · simp only [Option.some.injEq, Prod.mk.injEq]; rintro ⟨_, rfl⟩ h; exact h
+      · simp only [Option.some.injEq, Prod.mk.injEq]
+        rintro ⟨_, rfl⟩ h
+        have := selectFlows_back _ _ _ _ _ _ h
+        exact this
+  · simp
+
+theorem answerPrep_conf (cfg : Cfg) (p : Proc) (s : St) (node : String) (occ : Nat) (a : Answer) :
+    (∀ toks s', answerPrep cfg p s node occ a = some (toks, s') → s'.causes = []) →
+    answerPrep cfg p s node occ a = answerPrep Cfg.ideal p s node occ a := by
+  unfold answerPrep
+  simp only
+  split
+  · rename_i t k n _ _
+    cases a with
+    | ok results =>
+      simp only
+      intro h
+      have := h _ _ rfl
+      rw [selectFlows_conf _ _ _ _ _ _ this]
+    | err mode retries =>
+      simp only
+      split
+      · intro _; rfl
+      · intro _; rfl
+      · intro h
+        have := h _ _ rfl
+        rw [selectFlows_conf _ _ _ _ _ _ this]
+  · intro _; rfl
+
+theorem answerW_back (r : Ready) (hb : Back r) (cfg : Cfg) (he : cfg.eagerSettle = false) (p : Proc) (s : St)
+    (node : String) (occ : Nat) (a : Answer) :
+    (answerW r cfg p s node occ a).causes = [] → s.causes = [] := by
+  unfold answerW
+  cases hp : answerPrep cfg p s node occ a with
+  | none => simp
+  | some q =>
+    obtain ⟨toks, s'⟩ := q
+    intro h
+    exact answerPrep_back cfg p s node occ a toks s' hp (runWorkW_back r hb cfg he p _ _ _ h)
+
+theorem answerW_conf (r1 r2 : Ready) (hb : Back r1) (hc : Conf r1 r2) (cfg : Cfg) (he : cfg.eagerSettle = false)
+    (p : Proc) (s : St) (node : String) (occ : Nat) (a : Answer) :
+    (answerW r1 cfg p s node occ a).causes = [] →
+    answerW r1 cfg p s node occ a = answerW r2 Cfg.ideal p s node occ a := by
+  unfold answerW
+  cases hp : answerPrep cfg p s node occ a with
+  | none =>
+    have := answerPrep_conf cfg p s node occ a (by intro toks s' h; rw [hp] at h; cases h)
+    rw [← this, hp]
+    intro _; rfl
+  | some q =>
+    obtain ⟨toks, s'⟩ := q
+    simp only
+    intro h
+    have hs' := runWorkW_back r1 hb cfg he p _ _ _ h
+    have := answerPrep_conf cfg p s node occ a (by
+      intro toks2 s2 h2; rw [hp] at h2; cases h2; exact hs')
+    rw [← this, hp]
+    exact runWorkW_conf r1 r2 hb hc cfg he p _ _ _ h
+
+/-! ## the engine's decision procedure -/
+
+theorem igReady_back (cfg : Cfg) : Back (igReady cfg) := by
+  intro p s n g work
+  unfold igReady
+  split
+  · exact id
+  · simp only
+    split
+    · exact ite_cause_back _ _ _
+    · split <;> exact id
+
+theorem igReady_conf (cfg : Cfg) (hl : cfg.lateJoin = false) : Conf (igReady cfg) (joinOf cfg).ready := by
+  intro p s n g work
+  unfold igReady joinOf Join.ready
+  cases hi : cfg.inclCohort
+  · simp only [Bool.false_eq_true, if_false, hl, Join.early, earlyAt]
+    cases hg : g.activated <;> simp
+  · simp only [if_true, Join.cohortClamped, earlyAt]
+    cases hg : g.activated with
+    | none => simp
+    | some a =>
+      simp only
+      split
+      · intro h; exact absurd h (cause_ne_nil _ _)
+      · rename_i hdev
+        intro _
+        simp only [Prod.mk.injEq, and_true]
+        revert hdev
+        generalize ((Engine.cohort s a).all fun x => g.arrived.contains x) = c
+        generalize lateReady s a g.arrived work = l
+        generalize upstreamLive p s n.id work g.arrived = u
+        cases c <;> cases l <;> cases u <;> simp
+
+theorem joinOf_admissible (cfg : Cfg) : (joinOf cfg).Admissible := by
+  intro p s n g work
+  unfold joinOf
+  cases hi : cfg.inclCohort
+  · simp only [Bool.false_eq_true, if_false, Join.early]
+    cases hg : g.activated <;> simp
+  · simp only [if_true, Join.cohortClamped]
+    cases hg : g.activated with
+    | none => simp
+    | some a =>
+      simp only
+      generalize ((Engine.cohort s a).all fun x => g.arrived.contains x) = c
+      generalize lateReady s a g.arrived work = l
+      generalize earlyAt p s n g work = e
+      cases c <;> cases l <;> cases e <;> simp
+
+theorem early_admissible : Join.early.Admissible := joinOf_admissible Cfg.ideal
+theorem late_admissible : Join.late.Admissible := by
+  intro p s n g work
+  unfold Join.late
+  cases hg : g.activated with
+  | none => rfl
+  | some a =>
+    simp only
+    generalize lateReady s a g.arrived work = l
+    generalize earlyAt p s n g work = e
+    cases l <;> cases e <;> simp
+
+theorem igReady_ideal : igReady Cfg.ideal = Join.early.ready := by
+  funext p s n g work
+  unfold igReady Join.ready Join.early earlyAt
+  cases g.activated <;> simp [Cfg.ideal]
+
+theorem igReady_idealLate : igReady Cfg.idealLate = Join.late.ready := by
+  funext p s n g work
+  unfold igReady Join.ready Join.late earlyAt
+  cases g.activated <;> simp [Cfg.idealLate]
+
+/-! ## `lateJoin` is read by `igReady` only -/
+
+theorem arrive_idealLate (p : Proc) (s : St) (t : Tok) : arrive Cfg.idealLate p s t = arrive Cfg.ideal p s t := rfl
+theorem settleSubs_idealLate (p : Proc) (s : St) : settleSubs Cfg.idealLate p s = settleSubs Cfg.ideal p s := rfl
+theorem answerPrep_idealLate (p : Proc) (s : St) (node : String) (occ : Nat) (a : Answer) :
+    answerPrep Cfg.idealLate p s node occ a = answerPrep Cfg.ideal p s node occ a := rfl
+
+theorem runWorkW_idealLate (r : Ready) (p : Proc) : ∀ (fuel : Nat) (toks : List Tok) (s : St),
+    runWorkW r Cfg.idealLate p fuel toks s = runWorkW r Cfg.ideal p fuel toks s := by
+  intro fuel
+  induction fuel with
+  | zero => intro toks s; rfl
+  | succ k ih =>
+    intro toks s
+    cases toks with
+    | nil =>
+      have : settleW r Cfg.idealLate p s = settleW r Cfg.ideal p s := rfl
+      simp only [runWorkW, this, ih]
+    | cons t rest =>
+      simp only [runWorkW, arrive_idealLate, ih]
+      rfl
+
+theorem startW_idealLate (r : Ready) (p : Proc) (vars : Vars) :
+    startW r Cfg.idealLate p vars = startW r Cfg.ideal p vars := by
+  simp only [startW, runWorkW_idealLate]
+
+theorem answerW_idealLate (r : Ready) (p : Proc) (s : St) (node : String) (occ : Nat) (a : Answer) :
+    answerW r Cfg.idealLate p s node occ a = answerW r Cfg.ideal p s node occ a := by
+  simp only [answerW, runWorkW_idealLate, answerPrep_idealLate]
 
 end Bpmn.Lemmas.Engine
